@@ -216,6 +216,18 @@ def judge(logs, order, obs, pairs=None):
                 elif da != db:
                     fails.append(dict(log=lid, a=b, b=a, dim=dim, kind="dump", what="dumps differ on keys that never had a TTL"))
                 continue
+            if what == "p":
+                # pure-PFADD logs: replies and the PFCOUNTs after the final flush + restart only (the other views of
+                # such keys depend on flush times: open findings)
+                pfr = lambda d: " ".join(e for e in d.split(" || ") if e.startswith("pfr"))
+                if A["replies"] != B["replies"]:
+                    i, x, y = first_diff(B["replies"], A["replies"])
+                    fails.append(dict(log=lid, a=b, b=a, dim=dim, kind="replies", what="reply of request %d differs: %s vs %s" % (i, x, y)))
+                elif pfr(A["dump"]) != pfr(B["dump"]):
+                    fails.append(dict(log=lid, a=b, b=a, dim=dim, kind="pfr",
+                                      what="PFCOUNT after a final flush + restart differs on a key only PFADD ever touched: %s vs %s"
+                                           % (pfr(B["dump"]), pfr(A["dump"]))))
+                continue
             if dim == "restore":
                 pfr = lambda d: " ".join(e for e in d.split(" || ") if e.startswith("pfr"))
                 if pfr(A["dump"]) != pfr(B["dump"]):
@@ -327,7 +339,7 @@ class Runner:
         logs, order = parse_cases(os.path.join(d, "cases.tsv"))
         obs = parse_obs(os.path.join(d, "obs.out"))
         vids = list(logs[order[0]]["vars"].keys())
-        what = "u" if dim == "localexpiry" else ("r" if kind == "replies" else ("rdc" if dim == "compaction" else "rd"))
+        what = "p" if kind == "pfr" else "u" if dim == "localexpiry" else ("r" if kind == "replies" else ("rdc" if dim == "compaction" else "rd"))
         fails, _ = judge(logs, order, obs, pairs=[(vids[1], vids[0], dim, what)])
         return fails, {v: obs.get(v) for v in vids}
 
@@ -412,7 +424,7 @@ def process_failures(R, logs, fails, max_shrinks):
     # dimensions in which a finding is already known go last and every dimension has its own budget,
     # so that known findings cannot use up the shrinking budget of a new one
     known_dims = ("syncer-replay", "restore", "compaction")
-    fails = sorted(fails, key=lambda f: 1 if f["dim"] in known_dims else 0)
+    fails = sorted(fails, key=lambda f: 1 if (f["dim"] in known_dims and f.get("kind") != "pfr") else 0)
     for f in fails:
         if f["dim"] in ("missing", "runerr"):
             L = logs[f["log"]]
@@ -420,7 +432,7 @@ def process_failures(R, logs, fails, max_shrinks):
             out.append(dict(name="%s-%s" % (f["dim"], f["log"]), case=dict(cases_tsv=lines, detail=f["what"]),
                             what=f["what"], signature=None))
             continue
-        key = (f["log"], f["dim"])
+        key = (f["log"], f["dim"], f.get("kind") == "pfr")
         if key in seen:
             continue
         seen[key] = 1
@@ -539,6 +551,8 @@ def run(ctx):
         jobs.append(("compact", "-compact", "first"))
         # local-deletion policy: one key name, several types, a TTL on one of them, node-local sweep on one replica
         jobs.append(("sweep", "-sweep", "first"))
+        # pure PFADD keys, every checkpoint cut and every running-replica restore: PFCOUNT after a final flush + restart
+        jobs.append(("hll", "-hll", "first"))
 
     if not ctx.replay and not quick:
         # thorough: identical runs are identical, before any pair that differs in a dimension is judged
@@ -589,6 +603,8 @@ def run(ctx):
                     return vids[0]
                 pl = [(v, base_of(v), dim_of(logs[lid]["vars"][base_of(v)], logs[lid]["vars"][v]), "rd") for v in vids[1:]]
                 pl = [(a_, b_, d_, "rdc" if d_ == "compaction" else ("u" if d_ == "localexpiry" else w_)) for a_, b_, d_, w_ in pl]
+                if sub == "hll":
+                    pl = [(a_, b_, d_, "p") for a_, b_, d_, w_ in pl]
                 f1, s1 = judge(logs, [lid], obs, pairs=pl)
                 fails += f1
                 for k in ("logs", "skipped_panic", "comparisons", "runerr", "raw_only_diffs"):
